@@ -7,42 +7,47 @@ import mdibmodel
 from mdibgen import Tables
 
 FILE = '70041_MDIB_Final.xml'
-DH, OP = 'PC.mds0', 'SVO.41.PC.mds0'
+DH, LH, OP = 'PC.mds0', 'LC.mds0', 'SVO.41.PC.mds0'
 ASSOC = {None: 0, 'No': 0, 'Pre': 1, 'Assoc': 2, 'Dis': 3}
 HEADER = ('From Coq Require Import List ZArith Bool.\nImport ListNotations.\n'
           'From SDC Require Import Mdib.Model Mdib.Run Mdib.Context Mdib.CtxRun.\nOpen Scope Z_scope.\n')
 
 
 def gen_case(rng, nops):
+    """proposals are [handle reference | None, association | None, payload number, descriptor handle]; most go to the
+    patient context (the operation's target), some to the location context: the handler takes the descriptor from the
+    proposal.  A handle reference ['nth', i] is resolved by the executor to the i-th existing state of that descriptor
+    (the executor records what it resolved to in the trace), None proposes a new state."""
     ops = []
-    known = []          # canonical handles of patient context states created so far (gen<k> names are assigned by the
-    ngen = 0            # canonicaliser in order of first appearance, location states included)
     n = 0
+
+    def dh_of():
+        return LH if rng.random() < 0.15 else DH
+
+    def ref():
+        return 'no_such_state' if rng.random() < 0.08 else ['nth', rng.randint(0, 5)]
     for _ in range(nops):
         r = rng.random()
         n += 1
-        if r < 0.25:
+        if r < 0.22:
             ops.append({'k': 'location', 'n': n})
-            ngen += 1
-        elif r < 0.55 or not known:
+        elif r < 0.52 or not ops:
             assoc = rng.choice(['Assoc', 'Assoc', 'Assoc', 'Dis', 'No', 'Pre', None])
-            ops.append({'k': 'setctx', 'dh': DH, 'op_handle': OP, 'proposals': [[None, assoc, n]]})
-            ngen += 1
-            known.append(f'gen{ngen}')
-        elif r < 0.88:
-            h = rng.choice(known + ['no_such_state'] if rng.random() < 0.1 else known)
+            ops.append({'k': 'setctx', 'dh': DH, 'op_handle': OP, 'proposals': [[None, assoc, n, dh_of()]]})
+        elif r < 0.86:
             assoc = rng.choice(['Assoc', 'Assoc', 'Dis', 'Dis', 'No', 'Pre', None])
-            ops.append({'k': 'setctx', 'dh': DH, 'op_handle': OP, 'proposals': [[h, assoc, n]]})
+            ops.append({'k': 'setctx', 'dh': DH, 'op_handle': OP, 'proposals': [[ref(), assoc, n, dh_of()]]})
         else:
             props = []
-            for _ in range(2):
+            both = rng.random() < 0.5          # one proposal per descriptor: both can succeed in one request
+            for i in range(2):
                 n += 1
+                dh = (DH, LH)[i] if both else dh_of()
                 if rng.random() < 0.4:
-                    props.append([None, rng.choice(['Assoc', 'Dis', None]), n])
+                    props.append([None, rng.choice(['Assoc', 'Dis', None]), n, dh])
                 else:
-                    props.append([rng.choice(known), rng.choice(['Assoc', 'Dis', 'No', None]), n])
+                    props.append([ref(), rng.choice(['Assoc', 'Dis', 'No', None]), n, dh])
             ops.append({'k': 'setctx', 'dh': DH, 'op_handle': OP, 'proposals': props, 'multi': True})
-            # a failed multi proposal still consumed no canonical name (nothing new appears in the tables)
     return {'mdib': FILE, 'consumer': True, 'role_hooks': True, 'ops': ops}
 
 
@@ -77,9 +82,13 @@ def oracle(case, result):
                     yield n, f'state {h} stopped being associated but is marked {x[4]!r}, not disassociated'
                 elif x[6] != ver:
                     yield n, f'state {h} was disassociated in MdibVersion {ver} but UnbindingMdibVersion is {x[6]}'
+                elif len(x) > 9 and not x[9]:
+                    yield n, f'state {h} was disassociated in MdibVersion {ver} but has no BindingEndTime'
             if now and not was:
                 if x[5] != ver:
                     yield n, f'state {h} became associated in MdibVersion {ver} but BindingMdibVersion is {x[5]}'
+                elif len(x) > 8 and not x[8]:
+                    yield n, f'state {h} became associated in MdibVersion {ver} but has no BindingStartTime'
             if x[1] not in tb.t['descrs']:
                 yield n, f'context state {h} refers to a descriptor that does not exist'
             if h in tb.t['descrs']:
@@ -104,19 +113,33 @@ class CtxTranslator(mdibmodel.Translator):
                 g = new_gen[0] if new_gen else None
                 ops.append(f'CLoc {self.it.h(dh)} {self.it.h(g) if g else 0} {pay(g)}')
             else:
-                fresh = [self.it.h(g) for g in new_gen]
-                while len(fresh) < 3:
-                    spare += 1
-                    fresh.append(spare)
-                props = []
-                for handle, assoc, _n in op['proposals']:
+                # fresh handles in the order in which the handler draws them: one per new-state proposal
+                by_dh = {}
+                for x in d['cstates']['set']:
+                    if str(x[0]) in new_gen:
+                        by_dh.setdefault(str(x[1]), []).append(str(x[0]))
+                resolved = list(st.get('resolved') or [])
+                resolved += ['no_such_state'] * (len(op['proposals']) - len(resolved))   # the client gave up earlier
+                fresh, props = [], []
+                for (_ref, assoc, _n, *rest), handle in zip(op['proposals'], resolved):
+                    pdh = rest[0] if rest else op['dh']
+                    ph = handle
+                    if handle is None:
+                        ph = by_dh.get(pdh, []).pop(0) if by_dh.get(pdh) else None
+                        if ph is not None:
+                            fresh.append(self.it.h(ph))
+                        else:
+                            spare += 1
+                            fresh.append(spare)
                     hh = 'None' if handle is None else f'(Some {self.it.h(handle)})'
-                    ph = new_gen[0] if (handle is None and new_gen) else handle
                     acode = ASSOC[assoc]
                     if handle is not None and assoc is None and str(handle) in tb.t['cstates']:
                         # the proposal object is a copy of the consumer's current state: its association is kept
                         acode = ASSOC[tb.t['cstates'][str(handle)][4]]
-                    props.append(f'mkProp {self.it.h(op["dh"])} {hh} {acode} {pay(ph)}')
+                    props.append(f'mkProp {self.it.h(pdh)} {hh} {acode} {pay(ph)}')
+                while len(fresh) < 3:
+                    spare += 1
+                    fresh.append(spare)
                 ops.append(f'CSet [{"; ".join(map(str, fresh))}] [{"; ".join(props)}]')
             exp.append((0 if st['res'] == 'ok' else 1, d['ver'],
                         [(self.it.h(x[0]), self.enc_c(x)) for x in d['cstates']['set']] +
@@ -151,18 +174,20 @@ def run(ctx):
                 ctx.broken('correspondence', 'context: implementation run crashed', r['crash'][-800:])
             else:
                 pairs.append((c, r))
-    hist = {'location': 0, 'new': 0, 'update': 0, 'multi': 0, 'failed': 0, 'assoc_transitions': 0}
+    hist = {'location': 0, 'new': 0, 'update': 0, 'multi': 0, 'multi_ok': 0, 'proposals_for_location_descriptor': 0, 'failed': 0, 'assoc_transitions': 0}
     for c, r in pairs:
         for op, st in zip(c['ops'], r['trace']):
             if op['k'] == 'location':
                 hist['location'] += 1
             elif op.get('multi'):
                 hist['multi'] += 1
+                hist['multi_ok'] += st['res'] == 'ok'
             elif op['proposals'][0][0] is None:
                 hist['new'] += 1
             else:
                 hist['update'] += 1
             hist['failed'] += st['res'] != 'ok'
+            hist['proposals_for_location_descriptor'] += sum(1 for p in op.get('proposals', []) if len(p) > 3 and p[3] == LH)
             hist['assoc_transitions'] += sum(1 for x in st['prov']['cstates']['set'] if x[4] in ('Assoc', 'Dis'))
         first = None
         for n, why in oracle(c, r):
@@ -203,14 +228,14 @@ def run(ctx):
             ctx.broken('theorem', 'grep gate', hits)
         ctx.coqchk('SDC.Props.C10')
     return ctx.finish(
-        rule='random sequences of set_location and SetContextState operations (new / updated / associated / disassociated / '
+        rule='random sequences of set_location and SetContextState operations for the patient and the location context descriptor (new / updated / associated / disassociated / '
              'pre-associated / unspecified association, unknown handles, two proposals in one request) invoked through the '
              'real consumer context service client and processed by the tutorial GenericContextProvider on the loop-back '
              'world; after every operation the provider context table is judged by the oracle (at most one associated '
              'state per descriptor, binding / unbinding versions equal the commit version, handles unique, failed '
              'operations change nothing) and compared with the Coq model; distinct = distinct implementation traces',
         assumptions=['uuid4 handles are fresh (freshness oracle: the model receives the generated handle)',
-                     'BindingStartTime / BindingEndTime are not observed (only the versions)'],
+                     'BindingStartTime / BindingEndTime: only their presence is observed (clock values are outside the model)'],
         trusted_base=['harness/impl/mdib_impl.py do_setctx / do_location', 'harness/mdibmodel.py + CtxTranslator in harness/props/c10.py'],
         not_modelled=['the SCO worker thread / invocation reports (C09)', 'only the patient context has a SetContextState '
                       'operation in the test MDIB; location changes go through set_location'])
